@@ -229,33 +229,29 @@ SCAN_PRELUDE = [
 def generate():
     out = ["From Coq Require Import List String.", "Import ListNotations.", "Open Scope string_scope."]
 
+    # every table is emitted sorted by its key (the keys are distinct, so the order of the source's
+    # elif branches / set elements carries no meaning; duplicates keep their relative order)
     v, why = astlib.try_flag(gen_is_adverb)
     out.append("Definition is_adverb_set : list string := %s.%s" % (
-        astlib.coq_list([_s(x) for x in (v or [])]), "" if why is None else "  (* shape not recognised: %s *)" % why))
+        astlib.coq_list([_s(x) for x in sorted(v or [])]), "" if why is None else "  (* shape not recognised: %s *)" % why))
 
     v, why = astlib.try_flag(gen_adverb_arity)
-    items = ["(%s, %s)" % (_s(k), "None" if a is None else "Some %d" % a) for k, a in (v or [])]
+    items = ["(%s, %s)" % (_s(k), "None" if a is None else "Some %d" % a) for k, a in sorted(v or [], key=lambda e: e[0])]
     out.append("Definition adverb_arity : list (string * option nat) := %s.%s" % (
         astlib.coq_list(items), "" if why is None else "  (* shape not recognised: %s *)" % why))
 
     v, why = astlib.try_flag(gen_adverb_fn)
-    items = ["(%s, (%s, %s))" % (_s(k), _s(d), _s(mo)) for k, d, mo in (v or [])]
+    items = ["(%s, (%s, %s))" % (_s(k), _s(d), _s(mo)) for k, d, mo in sorted(v or [], key=lambda e: e[0])]
     out.append("(* get_adverb_fn: symbol -> (function for arity 2, function for arity 1) *)")
     out.append("Definition adverb_fn : list (string * (string * string)) := %s.%s" % (
         astlib.coq_list(items), "" if why is None else "  (* shape not recognised: %s *)" % why))
 
     for name, fname, method in (("over_shortcuts", "eval_adverb_over", "reduce"), ("scan_shortcuts", "eval_adverb_scan_over", "accumulate")):
         v, why = astlib.try_flag(lambda: _shortcut_table(fname, method)[0])
-        items = ["(%s, %s)" % (_s(k), _s(a)) for k, a in (v or [])]
+        items = ["(%s, %s)" % (_s(k), _s(a)) for k, a in sorted(v or [], key=lambda e: e[0])]
         out.append("Definition %s : list (string * string) := %s.%s" % (
             name, astlib.coq_list(items), "" if why is None else "  (* shape not recognised: %s *)" % why))
 
-    v, why = astlib.try_flag(gen_over_prelude)
-    out.append("Definition over_frame_ok : bool := %s.%s" % (astlib.coq_bool(v == OVER_PRELUDE),
-               "" if v == OVER_PRELUDE else "  (* eval_adverb_over outside the shortcut block reads: %s *)" % repr(v).replace("*)", "* )")))
-    v, why = astlib.try_flag(gen_scan_prelude)
-    out.append("Definition scan_frame_ok : bool := %s.%s" % (astlib.coq_bool(v == SCAN_PRELUDE),
-               "" if v == SCAN_PRELUDE else "  (* eval_adverb_scan_over outside the shortcut block reads: %s *)" % repr(v).replace("*)", "* )")))
     return "\n".join(out) + "\n"
 
 
@@ -272,7 +268,7 @@ ATOMS_NUM = [0, 1, 5, -3]
 VECS = [L(), L(5), L(1, 2), L(3, 1, 2), L(4, -2, 7, 1), L(1, 2, 3, 4, 5)]
 MATS = [L(L(1, 2), L(3, 4)), L(L(1, 2, 3)), L(L(5)), L(L(1, 2), L(3, 4), L(5, 7)), L(L(6, 5, 4), L(1, 2, 3)),
         L(L(2), L(3), L(4)), L(L(L(1, 2), L(3, 4)), L(L(5, 6), L(7, 8)))]
-NESTED_NUM = [L(1, L(2, 3)), L(L(1, 2), L(3, 4, 5)), L(L(1), L()), L(1, L(2, L(3, L(4), 5), 6), 7), L(L(1, L(2)), L(3, L(4)))]
+NESTED_NUM = [L(1, L(2, 3)), L(L(1, 2), L(3, 4, 5)), L(L(1), L()), L(1, L(2, L(3, L(4), 5), 6), 7), L(L(1, 2), 3, L(4, L(5)))]
 STRS = [S(""), S("a"), S("ab"), S("abc"), S("hello")]
 STRUCT = [["c", "a"], L(S("ab"), S("cd")), L(S("a"), L(1)), L(["c", "a"], ["c", "b"]), L(S("ab"), 1, L(2))]
 DICTS = [["d", [1, 2], [3, 4]], ["d"], ["d", [1, 2]], ["d", [S("k"), L(1, 2)]]]
@@ -282,7 +278,7 @@ ALLOPS = NUM + STRS + STRUCT
 A2 = ["+", "-", "*", "%", "&", "|", "=", "<", ">", "L+", "L-", "L*", "L%", "L&", "L|", "L=", "L<", "L>",
       "Lnc", "Ldec", "proj", "nproj", "named", "py"]
 S2 = [",", "L,", "Lsnd", "Lfst", "Lnest"]
-A1 = ["-", "L-", "Linc", "Ldbl", "Lcap", "Lhalf", "proj", "named", "py"]
+A1 = ["-", "L-", "Linc", "Ldbl", "Lcap", "Lhalf", "proj", "named", "py", "pycap"]
 S1 = ["#", "L#", ",", "L,", "|", "*", "Ldup", "Lid", "Lone", "Lcons", "Lflat"]
 GROW1 = {"Ldup", "Lcons", "Ldbl", "named", ",", "L,"}
 MONADIC_USE = ["each", "eachindex", "over", "scan", "eachpair", "converge", "scanconv"]
@@ -318,13 +314,13 @@ def universe(tier, rng):
                 operands = operands + (DICTS if not arithmetic or adv == "each" else [])
             if adv in ("while", "scanwhile"):
                 # an orbit that never ends must at least stay small: atoms, vectors, strings only
-                operands = [a for a in operands if a in ATOMS_NUM or a in VECS or a in STRS]
+                operands = [a for a in operands if (a in ATOMS_NUM and a >= 0) or a in VECS or a in STRS]
             for a in operands:
                 if v == "|" and ar == 1 and (isinstance(a, int) or a[0] in ("c", "d", "s")):
                     continue          # Reverse of an atom (a character of a string included) is C01's subject
                 shortcut = ar == 2 and v in OPS and adv in ("over", "scan") and is_num(a) and not isinstance(a, int)
                 if adv in MONADIC_USE:
-                    add({"adv": adv, "verb": v, "a": a}, core=shortcut or a in (L(3, 1, 2), S("abc"), 5))
+                    add({"adv": adv, "verb": v, "a": a}, core=shortcut or a in (L(3, 1, 2), S("abc"), 5) or v == "pycap")
                 elif adv in ("while", "scanwhile"):
                     for p in PREDS:
                         add({"adv": adv, "verb": v, "a": a, "left": p}, core=(a == 1 and p == "lt10"))
@@ -347,7 +343,7 @@ def universe(tier, rng):
     cverbs2 = ["+", ",", "&", "Lsnd", "Lnc", "L+", "py", "-"]
     cops = [L(L(1, 2), L(3, 4)), L(L(1, 2, 3), L(4, 5, 6), L(7, 8, 9)), L(1, L(2, L(3, L(4), 5), 6), 7), L(3, 1, 2), L(L(5)), L(), 5,
             L(S("ab"), S("cd")), L(L(1), L(2, 3))]
-    calm1 = ["Lid", "Lone", "Lcap", "#", "-"]      # verbs under which a repeated application stays bounded
+    calm1 = ["Lid", "Lone", "Lcap", "#", "-", "pycap"]      # verbs under which a repeated application stays bounded
     for first in MONADIC_USE:
         for second in ("each", "eachindex", "converge", "scanconv"):
             vs = cverbs1 if VERB_ARITY[first] == 1 else cverbs2
@@ -522,7 +518,7 @@ def classify(chk, c, o, m):
         prop = "text and expansion give different values"
     else:
         chk.count("agree_value")
-        if c["verb"] == "py" and not eerr:
+        if c["verb"] in ("py", "pycap") and not eerr:
             want = [a for a in impl_calls(o["eapps"]) if a[0] != "p"]
             if py_calls(o["tlog"]) != want:
                 prop = "the Python verb was not applied to the same arguments in the same order as the expansion prescribes"
